@@ -1003,7 +1003,7 @@ Proof.
     all: jg_split.
     all: destruct Hhead as [Hhd Hhc]; pose proof (get_commit_id_length _ _ _ Hhc) as Hlen.
     all: lazymatch goal with
-         | |- _ -> JG (ERenameRef _ _) => intro Hh; exact (proj2 (proj2 (proj2 (Hhyp Hh))))
+         | |- _ -> JG (ESetRef _ _) => intro Hh; exact (proj2 (proj2 (proj2 (Hhyp Hh))))
          | |- _ -> JG (ESetHead _) => intro Hh; exact (proj2 (proj2 (proj2 (Hhyp Hh))))
          | |- _ -> JG (EAppendHlog (log_rec _ _ _ None _ _)) =>
              intro Hh; destruct (Hhyp Hh) as (Hn & Hi & _ & Hrn); eexists; apply log_rec_good;
@@ -1014,9 +1014,15 @@ Proof.
          | |- _ -> JG _ => intros _; exact Logic.I
          | |- branch_post _ _ _ _ _ =>
              intros _; eexists; split; [exact Hhd|]; split; [exact Hlen|];
-             rewrite !hlog_bytes_effect; autorewrite with wfields; rewrite Hhd; cbn [hlog_line];
+             rewrite !hlog_bytes_effect; autorewrite with wfields; cbn [hlog_line];
              rewrite !app_nil_r, <- app_assoc;
-             split; [reflexivity|]; split; [apply am_get_set_same | reflexivity]
+             split; [reflexivity|]; split; [ | reflexivity]
+         end.
+    all: match goal with
+         | Hnew : negb (am_mem (w_refs _) _) = true, Hold : am_get (w_refs _) (w_head _) = Some _ |- _ =>
+             rewrite am_get_del_other;
+             [ apply am_get_set_same
+             | intro Heq; rewrite Heq in Hnew; unfold am_mem in Hnew; rewrite Hold in Hnew; discriminate Hnew ]
          end.
 Qed.
 
